@@ -172,47 +172,37 @@ impl ConstantFolding {
         // truthy             && call() --> call()
         // non-null/undefined ?? call() --> non-null/undefined
         if let BinaryOp::Logical(op) = binary.op() {
-            let expr = match op {
-                LogicalOp::And => {
-                    if lhs.to_boolean() {
-                        std::mem::replace(
-                            binary.rhs_mut(),
-                            Literal::new(LiteralKind::Undefined, span).into(),
-                        )
-                    } else {
-                        std::mem::replace(
-                            binary.lhs_mut(),
-                            Literal::new(LiteralKind::Undefined, span).into(),
-                        )
-                    }
-                }
-                LogicalOp::Or => {
-                    if lhs.to_boolean() {
-                        std::mem::replace(
-                            binary.lhs_mut(),
-                            Literal::new(LiteralKind::Undefined, span).into(),
-                        )
-                    } else {
-                        std::mem::replace(
-                            binary.rhs_mut(),
-                            Literal::new(LiteralKind::Undefined, span).into(),
-                        )
-                    }
-                }
-                LogicalOp::Coalesce => {
-                    if lhs.is_null_or_undefined() {
-                        std::mem::replace(
-                            binary.rhs_mut(),
-                            Literal::new(LiteralKind::Undefined, span).into(),
-                        )
-                    } else {
-                        std::mem::replace(
-                            binary.lhs_mut(),
-                            Literal::new(LiteralKind::Undefined, span).into(),
-                        )
-                    }
-                }
+            let take_rhs = match op {
+                LogicalOp::And => lhs.to_boolean(),
+                LogicalOp::Or => !lhs.to_boolean(),
+                LogicalOp::Coalesce => lhs.is_null_or_undefined(),
             };
+            let expr = if take_rhs {
+                std::mem::replace(
+                    binary.rhs_mut(),
+                    Literal::new(LiteralKind::Undefined, span).into(),
+                )
+            } else {
+                std::mem::replace(
+                    binary.lhs_mut(),
+                    Literal::new(LiteralKind::Undefined, span).into(),
+                )
+            };
+
+            // The result of a logical expression is a value, never a reference:
+            // `(null ?? o.f)()` must not call `o.f` with `this = o`, and `delete (true && o.p)`
+            // must not delete `o.p`. Keep the right-hand side behind a comma, like the comma
+            // folding above does.
+            if take_rhs && !matches!(expr, Expression::Literal(_)) {
+                return PassAction::Replace(
+                    Binary::new(
+                        BinaryOp::Comma,
+                        Literal::new(LiteralKind::Undefined, span).into(),
+                        expr,
+                    )
+                    .into(),
+                );
+            }
             return PassAction::Replace(expr);
         }
 
